@@ -6,6 +6,7 @@ from mirlib import AnchorMissing, path_matches, op_place
 from helpers import (aggregates, arm, branches_on_call, enum_switches, field_accesses, loop_of, must_pass, vexpr)
 import genparser
 import guards
+import layout
 import perfile
 import rule_scopes
 from props import c01
@@ -363,6 +364,7 @@ def run(ctx):
     ctx.run_rule('C06.3', 'T3', 'positions survive the removal of directives and unselected lines', r_positions_survive, prog)
     ctx.run_rule('C06.4a', 'T3', 'parse errors and recovered errors are reported on every path', c01.r_parse_errors, prog)
     ctx.run_rule('C06.4b', 'T1', 'directive text is only consumed by tokenising; bad directive names are errors', r_directive_mode_consumption, prog)
+    ctx.run_rule('C06.4d', 'T3', 'layout: the lexer skips exactly the characters char::is_whitespace accepts (a directive line: all but the line feed)', layout.r_whitespace_class, prog, ('preprocessor',))
     ctx.run_rule('C06.4c', 'T9', 'lexer progress and end-of-input state change', c01.r_lexer_eof_state, prog)
     ctx.run_rule('C06.5', 'T13', 'conditions under which the preprocessor lexer consumes, returns and switches modes (precondition ledger)', r_lexer_preconditions, prog)
     ctx.run_rule('C06.6', 'T2', 'preprocessed text is handed back exactly when parsing succeeded without errors', decisions.r_parser_entries, prog, ('preprocessor',))
